@@ -20,11 +20,11 @@ DT = {
 
 
 def to_np(t: torch.Tensor) -> np.ndarray:
-    return t.detach().to(torch.float64).cpu().numpy()
+    return t.detach().to(torch.float64).cpu().numpy().copy()
 
 
 def cast_np(t: torch.Tensor, dtype) -> np.ndarray:
-    return t.detach().to(dtype).to(torch.float64).cpu().numpy()
+    return t.detach().to(dtype).to(torch.float64).cpu().numpy().copy()
 
 
 def size_formula(dt: float, duration: float, inclusive: bool) -> int:
